@@ -1,4 +1,5 @@
 import PhononModel.Lemmas.KernelFootprint
+import PhononModel.Model.GlueWiring
 /-!
 # C13 — compiled kernels: write footprints of the OpenMP loops
 
@@ -471,6 +472,219 @@ theorem temp_in_bounds_gp2ir (ngp : Nat) (gmt : Nat → Nat) (neigh : List Nat)
   · exact hg i hi
   · exact hn x hx
 
+/-! ### read footprints: table certificate ⇒ every read inside the array -/
+
+theorem reads_in_bounds_dynmat (S : DynShape) (T : DynTabs) (h : dynCert S T = true) :
+    (rDynFc S T).InBounds ∧ (rDynMulti S).InBounds ∧ (rDynSvecs S T).InBounds := by
+  simp only [dynCert, Bool.and_eq_true, List.all_eq_true, List.mem_range, decide_eq_true_eq] at h
+  obtain ⟨hp, hm⟩ := h
+  have hp' := allLt_sound hp
+  refine ⟨?_, ?_, ?_⟩
+  · intro x hx
+    simp only [rDynFc, mem_for2, List.mem_singleton] at hx
+    obtain ⟨i, hi, k, hk, l, hl, m, hm', rfl⟩ := hx
+    have b : T.p2s i * (S.ns * 9) + (k * 9 + l * 3 + m) < S.nfc * (S.ns * 9) := radix_lt (hp' i hi) (by omega)
+    rw [← Nat.mul_assoc, ← Nat.mul_assoc] at b
+    simp only [rDynFc]; omega
+  · intro x hx
+    simp only [rDynMulti, mem_for2, List.mem_cons, List.not_mem_nil, or_false] at hx
+    obtain ⟨k, hk, i, hi, hx⟩ := hx
+    have b : k * S.np + i < S.ns * S.np := radix_lt hk hi
+    simp only [rDynMulti]
+    rcases hx with rfl | rfl <;> omega
+  · intro x hx
+    simp only [rDynSvecs, mem_for2, List.mem_singleton] at hx
+    obtain ⟨k, hk, i, hi, l, hl, m, hm', rfl⟩ := hx
+    have b : k * S.np + i < S.ns * S.np := radix_lt hk hi
+    have := hm _ b
+    simp only [rDynSvecs]; omega
+
+theorem reads_in_bounds_transform_dynmat_to_fc (S : D2fShape) (s2pp : Nat → Nat) (h : d2fCert S s2pp = true) :
+    (rD2fDm S s2pp).InBounds ∧ (rD2fMasses S s2pp).InBounds := by
+  simp only [d2fCert, Bool.and_eq_true, decide_eq_true_eq] at h
+  obtain ⟨⟨_, hN⟩, hs⟩ := h
+  have hs' := allLt_sound hs
+  constructor
+  · intro x hx
+    simp only [rD2fDm, mem_for3, mem_for2, mem_cplx] at hx
+    obtain ⟨k, hk, i, hi, j, hj, l, hl, m, hm, hx⟩ := hx
+    have e : k * S.np * S.np * 9 + i * S.np * 9 + l * S.np * 3 + s2pp j * 3 + m
+        = k * ((S.np*3)*(S.np*3)) + ((i*3+l)*(S.np*3) + (s2pp j*3+m)) := by ring
+    have hsj := hs' j hj
+    have b1 : (i*3+l)*(S.np*3) + (s2pp j*3+m) < (S.np*3)*(S.np*3) := radix_lt (by omega) (by omega)
+    have b2 : k * ((S.np*3)*(S.np*3)) + ((i*3+l)*(S.np*3) + (s2pp j*3+m)) < S.ncomm * ((S.np*3)*(S.np*3)) :=
+      radix_lt (by omega) b1
+    rw [← e] at b2
+    have e2 : S.ncomm * (S.np * 3) * (S.np * 3) = S.ncomm * ((S.np*3)*(S.np*3)) := by ring
+    simp only [rD2fDm, e2]
+    omega
+  · intro x hx
+    simp only [rD2fMasses, mem_for1, List.mem_singleton] at hx
+    obtain ⟨j, hj, rfl⟩ := hx
+    exact hs' j hj
+
+theorem reads_in_bounds_tetrahedra_frequencies (S : TfShape) (gridPoints gpIr : Nat → Nat)
+    (h : tfCert S gridPoints gpIr = true) :
+    (rTfGridAddress S gridPoints).InBounds ∧ (rTfGpIr S).InBounds ∧ (rTfFreqs S gpIr).InBounds := by
+  simp only [tfCert, Bool.and_eq_true, decide_eq_true_eq] at h
+  obtain ⟨⟨hg, hm⟩, hi⟩ := h
+  have hg' := allLt_sound hg
+  have hi' := allLt_sound hi
+  refine ⟨?_, ?_, ?_⟩
+  · intro x hx
+    simp only [rTfGridAddress, mem_for2, List.mem_singleton] at hx
+    obtain ⟨i, hi2, k, hk, rfl⟩ := hx
+    have := hg' i hi2
+    simp only [rTfGridAddress]; omega
+  · intro x hx
+    simp only [rTfGpIr, mem_whole] at hx ⊢; omega
+  · intro x hx
+    simp only [rTfFreqs, mem_for2, List.mem_singleton] at hx
+    obtain ⟨g, hg2, b, hb, rfl⟩ := hx
+    exact radix_lt (hi' g hg2) hb
+
+theorem gp2irOf_lt (S : DosShape) (gmt : Nat → Nat)
+    (hfix : ∀ i, i < S.ngp → gmt i ≤ i ∧ gmt (gmt i) = gmt i) (hcount : fixedBefore gmt S.ngp = S.nir)
+    (g : Nat) (hg : g < S.ngp) : gp2irOf gmt g < S.nir := by
+  unfold gp2irOf
+  obtain ⟨h1, h2⟩ := hfix g hg
+  rw [← hcount]
+  split
+  · next hf => exact fixedBefore_lt_of_fixed gmt hg hf
+  · exact fixedBefore_lt_of_fixed gmt (by omega) h2
+
+theorem reads_in_bounds_tetrahedron_method_dos (S : DosShape) (gmt : Nat → Nat) (h : dosCert S gmt = true) :
+    (rDosFreqs S gmt).InBounds ∧ (rDosCoef S).InBounds ∧ (rDosGmt S).InBounds := by
+  simp only [dosCert, Bool.and_eq_true, decide_eq_true_eq, List.all_eq_true, List.mem_range] at h
+  obtain ⟨⟨⟨hlen, hmp⟩, hfix⟩, hcount⟩ := h
+  refine ⟨?_, ?_, ?_⟩
+  · intro x hx
+    simp only [rDosFreqs, mem_for2, List.mem_singleton] at hx
+    obtain ⟨g, hg, k, hk, rfl⟩ := hx
+    exact radix_lt (gp2irOf_lt S gmt hfix hcount g (by omega)) hk
+  · intro x hx
+    simp only [rDosCoef, mem_for3, List.mem_singleton] at hx
+    obtain ⟨i, hi, m, hm, k, hk, rfl⟩ := hx
+    have e : i * S.nc * S.nb + m * S.nb + k = i * (S.nc * S.nb) + (m * S.nb + k) := by ring
+    have b : i * (S.nc * S.nb) + (m * S.nb + k) < S.nir * (S.nc * S.nb) := radix_lt hi (radix_lt hm hk)
+    have e2 : S.nir * S.nc * S.nb = S.nir * (S.nc * S.nb) := by ring
+    simp only [rDosCoef, e, e2]; exact b
+  · intro x hx
+    simp only [rDosGmt, mem_whole] at hx ⊢; omega
+
+theorem reads_in_bounds_thermal_properties (nq nb : Nat) : (rThermalFreqs nq nb).InBounds := by
+  intro x hx
+  simp only [rThermalFreqs, mem_for2, List.mem_singleton] at hx
+  obtain ⟨i, hi, k, hk, rfl⟩ := hx
+  exact radix_lt hi hk
+
+theorem revOf_lt (S : DfcShape) (T : DfcTabs) (d r : Nat) (h : revOf S T d = some r) : r < S.len := by
+  unfold revOf at h
+  have := List.mem_of_find?_eq_some h
+  simpa using this
+
+theorem reads_in_bounds_distribute_fc2 (S : DfcShape) (T : DfcTabs) (h : dfcCert S T = true) :
+    (rDfcPerms S T).InBounds ∧ (rDfcFc S T).InBounds ∧ (rDfcMaps S T).InBounds := by
+  simp only [dfcCert, Bool.and_eq_true, List.all_eq_true, List.mem_range] at h
+  obtain ⟨⟨⟨⟨⟨ha, hf⟩, hma⟩, hms⟩, hpm⟩, hrev⟩ := h
+  have ha' := allLt_sound ha
+  have hf' := allLt_sound hf
+  have hms' := allLt_sound hms
+  refine ⟨?_, ?_, ?_⟩
+  · intro x hx
+    simp only [rDfcPerms, mem_for2, List.mem_singleton] at hx
+    obtain ⟨i, hi, o, ho, rfl⟩ := hx
+    exact radix_lt (hms' _ (ha' i hi)) ho
+  · intro x hx
+    simp only [rDfcFc, mem_for2] at hx
+    obtain ⟨i, hi, o, ho, hx⟩ := hx
+    have hsome := hrev i hi
+    cases hr : revOf S T (T.mapAtoms (T.atomList i)) with
+    | none => rw [hr] at hsome; simp at hsome
+    | some r =>
+      rw [hr] at hx
+      simp only [mem_for1, List.mem_singleton] at hx
+      obtain ⟨e, he, rfl⟩ := hx
+      have hr' := revOf_lt S T _ r hr
+      have hsym := hms' _ (ha' i hi)
+      have hp := allLt_sound (hpm _ hsym) o ho
+      have b1 : T.fcIdx r * S.npos + T.perm (T.mapSyms (T.atomList i)) o < S.nrows * S.npos := radix_lt (hf' r hr') hp
+      have b2 := radix_lt b1 he
+      simp only [rDfcFc]; exact b2
+  · intro x hx
+    simp only [rDfcMaps, mem_for1, List.mem_singleton] at hx
+    obtain ⟨i, hi, rfl⟩ := hx
+    exact ha' i hi
+
+theorem reads_in_bounds_compact_symmetrizer (S : CsShape) (T : CsTabs) (h : csCert S T = true) :
+    (rCsPerms S T).InBounds ∧ (rCsFc S T).InBounds := by
+  simp only [csCert, Bool.and_eq_true, List.all_eq_true, List.mem_range] at h
+  obtain ⟨⟨⟨hp, hs⟩, hn⟩, hpm⟩ := h
+  have hp' := allLt_sound hp
+  have hs' := allLt_sound hs
+  have hn' := allLt_sound hn
+  constructor
+  · intro x hx
+    simp only [rCsPerms, mem_for2, List.mem_singleton] at hx
+    obtain ⟨j, hj, ip, hip, rfl⟩ := hx
+    exact radix_lt (hn' j hj) (hp' ip hip)
+  · intro x hx
+    simp only [rCsFc, mem_for2, mem_for1, List.mem_cons, List.not_mem_nil, or_false] at hx
+    obtain ⟨j, hj, ip, hip, e, he, hx⟩ := hx
+    have hit := allLt_sound (hpm _ (hn' j hj)) _ (hp' ip hip)
+    have key : ∀ a b, a < S.np → b < S.ns → a * S.ns * 9 + b * 9 + e < S.np * S.ns * 9 := by
+      intro a b ha hb
+      have b1 : a * S.ns + b < S.np * S.ns := radix_lt ha hb
+      have b2 : (a * S.ns + b) * 9 + e < (S.np * S.ns) * 9 := radix_lt b1 he
+      have e1 : a * S.ns * 9 + b * 9 + e = (a * S.ns + b) * 9 + e := by ring
+      rw [e1]; exact b2
+    simp only [rCsFc]
+    rcases hx with rfl | rfl | rfl
+    · exact key ip j hip hj
+    · exact key _ _ (hs' j hj) hit
+    · exact key ip _ hip (hp' ip hip)
+
+/-- non-vacuity: a concrete table set passes the certificate; an address past `svecs` fails it, and the
+brute-force evaluation of the modelled reads agrees -/
+example : dynCert ⟨1, 2, 2, 3⟩ ⟨fun _ => 0, fun _ => 0, fun p => p + 1, fun p => p⟩ = true := by decide
+example : dynCert ⟨1, 2, 2, 2⟩ ⟨fun _ => 0, fun _ => 0, fun p => p + 1, fun p => p⟩ = false ∧
+    (rDynSvecs ⟨1, 2, 2, 2⟩ ⟨fun _ => 0, fun _ => 0, fun p => p + 1, fun p => p⟩).inBoundsB = false := by decide
+example : dosCert ⟨4, 2, 1, 1, 1, 4, 4⟩ (fun i => if i < 2 then 0 else 2) = true := by decide
+/-- a representative that is not in `atom_list` is rejected (the C code would read an uninitialised cell) -/
+example : dfcCert ⟨2, 1, 1, 2⟩ ⟨fun _ => 1, fun _ => 0, fun _ => 0, fun _ => 0, fun _ a => a⟩ = false := by decide
+
+/-! ### the glue's shape wiring (regenerated from c/_phonopy.cpp on every run) is the one the models assume -/
+
+theorem glue_wiring_matches_model : wiringOK = true := by decide +kernel
+theorem glue_casts_match_model : castsOK = true := by decide +kernel
+theorem glue_nulls_match_model : nullsOK = true := by decide +kernel
+theorem glue_calls_positional : callsPositional = true := by decide +kernel
+
+/-- the shape relations the bounds theorems rely on: `num_patom`/`num_satom` of the Fourier kernels come from
+`p2s_map`/`s2p_map`, of `transform_dynmat_to_fc` from `multi.shape(1)`/`multi.shape(0)`; the compact layout is
+`fc[n_patom][n_satom]`; `distribute_fc2` sizes come from `permutations[num_rot][num_pos]` -/
+theorem glue_shape_relations :
+    fedBy "transform_dynmat_to_fc" "num_patom" "py_multi" 1 = true ∧
+    fedBy "transform_dynmat_to_fc" "num_satom" "py_multi" 0 = true ∧
+    fedBy "dynamical_matrices_with_dd_openmp_over_qpoints" "num_patom" "py_p2s_map" 0 = true ∧
+    fedBy "dynamical_matrices_with_dd_openmp_over_qpoints" "num_satom" "py_s2p_map" 0 = true ∧
+    fedBy "dynamical_matrices_with_dd_openmp_over_qpoints" "n_qpoints" "py_qpoints" 0 = true ∧
+    fedBy "derivative_dynmat" "num_patom" "py_p2s_map" 0 = true ∧
+    fedBy "derivative_dynmat" "num_satom" "py_s2p_map" 0 = true ∧
+    fedBy "perm_trans_symmetrize_compact_fc" "n_patom" "py_force_constants" 0 = true ∧
+    fedBy "perm_trans_symmetrize_compact_fc" "n_satom" "py_force_constants" 1 = true ∧
+    fedBy "transpose_compact_fc" "n_patom" "py_force_constants" 0 = true ∧
+    fedBy "transpose_compact_fc" "n_satom" "py_force_constants" 1 = true ∧
+    fedBy "distribute_fc2" "num_rot" "py_permutations" 0 = true ∧
+    fedBy "distribute_fc2" "num_pos" "py_permutations" 1 = true ∧
+    fedBy "thermal_properties" "num_qpoints" "py_frequencies" 0 = true ∧
+    fedBy "thermal_properties" "num_bands" "py_frequencies" 1 = true ∧
+    fedBy "tetrahedron_method_dos" "num_ir_gp" "py_frequencies" 0 = true ∧
+    fedBy "tetrahedron_method_dos" "num_coef" "py_coef" 1 = true ∧
+    fedBy "tetrahedron_method_dos" "num_gp" "py_grid_address" 0 = true ∧
+    fedBy "tetrahedra_frequencies" "num_gp_in" "py_grid_points" 0 = true ∧
+    fedBy "tetrahedra_frequencies" "num_band" "py_frequencies" 1 = true := by decide +kernel
+
 /-! ### schedules -/
 
 /-- executing write-disjoint, own-cell-local iterations in any order of a permutation of
@@ -562,3 +776,15 @@ end PhononModel.C13
 #print axioms PhononModel.C13.temp_in_bounds_tp
 #print axioms PhononModel.C13.temp_in_bounds_gsv
 #print axioms PhononModel.C13.temp_in_bounds_gp2ir
+#print axioms PhononModel.C13.reads_in_bounds_dynmat
+#print axioms PhononModel.C13.reads_in_bounds_transform_dynmat_to_fc
+#print axioms PhononModel.C13.reads_in_bounds_tetrahedra_frequencies
+#print axioms PhononModel.C13.reads_in_bounds_tetrahedron_method_dos
+#print axioms PhononModel.C13.reads_in_bounds_thermal_properties
+#print axioms PhononModel.C13.reads_in_bounds_distribute_fc2
+#print axioms PhononModel.C13.reads_in_bounds_compact_symmetrizer
+#print axioms PhononModel.C13.glue_wiring_matches_model
+#print axioms PhononModel.C13.glue_casts_match_model
+#print axioms PhononModel.C13.glue_nulls_match_model
+#print axioms PhononModel.C13.glue_calls_positional
+#print axioms PhononModel.C13.glue_shape_relations
